@@ -72,6 +72,15 @@ CHECKS = {
             "instantiate (and import) allowed, import side effects and constructor canaries never fire otherwise; crafted payloads never import "
             "or construct.",
             "DESIGN.md C09", "Known finding: exception groups arrive as a generic stand-in."),
+    "C17": ("exploration",
+            "deterministic simulation: real servers on an in-memory kernel that owns the descriptor table; seeded connect/call/leave histories with server.close() at a drawn point under seeded thread schedules",
+            "Seeded search over histories (1-6 clients: connect, call, hold reference, slow call in flight, graceful close, abrupt reset; "
+            "server.close() once or twice at any position) x server kind (threaded, thread pool with drawn pool/batch sizes, one-shot, forking on "
+            "a modelled fork) x TCP/unix listener x thread schedule. Oracle: clients connected at close see EOFError within 1 virtual second "
+            "(never their timeout), on_disconnect exactly once per connection, new connects refused, second close harmless, descriptor census "
+            "of the server process == listener + connected clients, server.clients / fd_to_conn / poll registrations hold no departed client, "
+            "one-shot serves exactly one connection.",
+            "DESIGN.md C17", "Known finding D10 (ForkingServer.close cannot reach its children) on the modelled fork."),
     "C19": ("exploration",
             "deterministic simulation: conversations between the real implementation and an independently written reference codec/peer (both directions, plus real<->real with a tap); every frame re-encoded by the reference and compared byte for byte",
             "Seeded search over request/response exchanges (all 20 handlers' worth of operations, every value shape, packet sizes straddling the "
